@@ -97,6 +97,16 @@ func (f *Fact) Risky(a int64) int64 {
 func (f *Fact) SetX(v int64) { f.X = v; f.logCall("SetX", []interface{}{v}, 0) }
 func (f *Fact) SetY(v int64) { f.Y = v; f.logCall("SetY", []interface{}{v}, 0) }
 
+// SetRisky is a setter of F.Y that panics on 13: a method WITHOUT a result failing in a call statement.
+func (f *Fact) SetRisky(v int64) {
+	if v == 13 {
+		f.logCall("SetRisky", []interface{}{v}, "panic")
+		panic("SetRisky(13)")
+	}
+	f.Y = v
+	f.logCall("SetRisky", []interface{}{v}, 0)
+}
+
 // Mark records that a method-call action ran: no rule reads F.Once, so no Forget is needed.
 func (f *Fact) Mark(v int64) { f.Once = f.Once*10 + v; f.logCall("Mark", []interface{}{v}, 0) }
 
@@ -221,7 +231,7 @@ func (w *World) jsonValue(path ...interface{}) interface{} {
 	case "float64", "float32":
 		i := int64(v.Float())
 		if float64(i) != v.Float() {
-			panic(fmt.Sprintf("JSON member %v is not integral: %v", path, v.Float()))
+			return notIntegral // (the specification computes integers only: this never agrees with it)
 		}
 		return i
 	case "int64", "int", "int32", "int16", "int8":
@@ -233,6 +243,10 @@ func (w *World) jsonValue(path ...interface{}) interface{} {
 	}
 	panic(fmt.Sprintf("JSON member %v has kind %s", path, v.Kind()))
 }
+
+// notIntegral is the projection of a number that is not whole (1.25, +Inf, NaN): no value of the specification, whose numbers
+// are small integers, equals it, so the state it occurs in disagrees with the model instead of stopping the driver.
+const notIntegral = int64(-2000000011)
 
 // Snapshot is the full projection of the fact state: location key -> value, exactly the keys the
 // specification computes from an access path.
@@ -289,7 +303,7 @@ func (w *World) Snapshot() J {
 				case "float64":
 					n = int64(vn.Value().Float())
 					if float64(n) != vn.Value().Float() {
-						panic(fmt.Sprintf("N is not integral: %v", vn.Value().Float()))
+						n = notIntegral
 					}
 				default:
 					panic("N has kind " + vn.Value().Kind().String())
